@@ -506,11 +506,9 @@ FaultOutcomes(cs, fsys, req, aw, views) ==
             \cup { Outcome(o.cs, fsys, AnyResp, FALSE) : o \in { o \in ok : o.resp.k # "ReadDir" } }
        [] req.op = "STAT_FILE" -> { Outcome(cs, fsys, StatFail, FALSE) }
        [] req.op = "OPEN_FILE" ->
-            \* failure reply; the file may or may not stay open behind it
+            \* failure reply, and no file is open behind it (all or nothing)
             { Outcome([cs EXCEPT !.ro = NoFile, !.sect = 0], fsys, OpenFail, FALSE) }
-            \cup { Outcome(o.cs, fsys, OpenFail, FALSE) : o \in ok }
-            \* success reply, but the sector-size probe failed: the default applies
-            \cup { Outcome([o.cs EXCEPT !.sect = DefaultCDSector], fsys, o.resp, FALSE) : o \in { o \in ok : o.cs.ro.open } }
+            \* (a failed sector-size probe fails the open: serving sectors by the default size would be wrong bytes later)
        [] req.op = "READ_FILE" ->
             \* nothing and the connection ends - or, the source having ended early, an honestly announced shorter count
             \* followed by exactly that many right bytes (the length header keeps the stream in step)
